@@ -2147,7 +2147,9 @@ class C08(HistProp):
                 "Panic outcome (C08_histories_total). After a successful whole-packet rename of a packet as the parser returned it the object is "
                 "exactly the parse of its new bytes, every field (C08_rename_is_fresh_parse), the same from any object satisfying the invariant; "
                 "histories that mix renames at any point with the cursor histories keep the object equal to a fresh parse of its bytes in "
-                "one of the two forms (C08_histories_with_rename); the cursor that changed an owner name is the "
+                "one of the two forms (C08_histories_with_rename), and every such history runs to the end with failing steps tolerated: "
+                "each applicable step succeeds or reports an error, never a Panic outcome, and leaves an object that is again its own fresh "
+                "parse (C08_step_with_rename_total, C08_histories_with_rename_total); the cursor that changed an owner name is the "
                 "cursor on the renamed record and advancing it yields the record that followed (C08_cursor_after_rename, "
                 "C08_next_after_rename). Operations that move the cursor (TTL / address / name setters, deletion, "
                 "cursor decompression), insertion of OPT records or of a question, and histories on synthesised objects are decided each run "
@@ -2257,7 +2259,11 @@ class C10(HistProp):
                 "(C08_histories_with_cursor_total). A failing whole-packet rename or recompute leaves object and cursor exactly as they were, any object, any arguments "
                 "(C10_failed_rename_changes_nothing, C10_failed_recompute_changes_nothing); on a packet as the parser returned it the rename "
                 "succeeds or reports an error, its consistency assertion is unreachable (C10_rename_total, C10_rename_keeps_edns_summary; also from any object satisfying the "
-                "invariant: C10_rename_total_on_decompressed). Atomicity of the other failing operations (the question, text, "
+                "invariant: C10_rename_total_on_decompressed). Every operation of the histories that mix renames with the cursor operations, applied to "
+                "an object that is its own fresh parse, succeeds or reports an error and leaves such an object again, cursor untouched "
+                "(C10_step_with_rename_outcome); the first decompress-first operation on a packet as the parser returned it - recompute, "
+                "insertion, deletion or owner-name change through a cursor - succeeds or reports an error and leaves the pointer-free form "
+                "with the view of its parse, or the object untouched (C10_first_operation_outcome). Atomicity of the other failing operations (the question, text, "
                 "operations that start on a compressed object) is decided each run by the correspondence and the before/after oracle.")
 
     def gen(self, rng, tier):
